@@ -72,6 +72,23 @@ class Graph:
         return paths
 
 
+def walks(g, init, n, max_len, rnd, weight=None):
+    """n random walks of the dumped graph from `init` (lists of (action, expected projection)); weight(action, step) biases the
+    choice of the next edge (default: uniform)"""
+    k0 = key(init)
+    out = []
+    for _ in range(n):
+        cur, path = k0, []
+        while len(path) < max_len and g.out[cur]:
+            es = g.out[cur]
+            ws = [max(weight(a, len(path)), 1e-9) if weight else 1.0 for _, a, _ in es]
+            _, a, v = rnd.choices(es, weights=ws)[0]
+            path.append((a, g.states[v]))
+            cur = v
+        out.append(path)
+    return out
+
+
 def dump_edges(module, cfg, consts=None, env=None, heap="4g", timeout=1800, norm=None):
     """run TLC (single worker: PrintT lines must not interleave) and return (Graph, TlcResult);
     norm: optional function bringing a printed projection to the harness's JSON shape (sets sorted, empty functions as {})"""
